@@ -333,7 +333,7 @@ func (k *checker) tieStream(kind string, width int, stream []byte, what string, 
 	}
 	// (the specification decoders of the DELTA encodings are slow: every other stream in the quick tier)
 	stats.specTurn++
-	if !goBytes && specCost <= costLimit && specComparable(kind) && (isRLE(kind) || !c.Quick() || stats.specTurn%2 == 0) {
+	if !goBytes && specCost <= costLimit && specComparable(kind) && (isRLE(kind) || !c.Quick() || what == "replay" || stats.specTurn%2 == 0) {
 		spec := specDecode(c, kind, width, stream)
 		switch {
 		case g.status == "ok" && spec == "NONE":
